@@ -382,6 +382,7 @@ var hashHook func(w *world)
 
 func c14Gen(r *rand.Rand, tier string) any {
 	sc := &histScenario{Spec: genProject(r, defaultGenOpts(tier)), Proc: genProc(r)}
+	sc.Proc.ViaLink = r.IntN(6) == 0 // the checkout is reached through a symbolic link
 	shadow := sc.clone().Spec
 	n := 4 + r.IntN(6)
 	sc.Ops = append(sc.Ops, opSpec{Op: "build", Label: pickLabel(r, shadow)})
@@ -531,6 +532,9 @@ func (p *projSpec) applySpecEdit2(op *opSpec) bool {
 }
 
 func recordFiles(root string) map[string][]byte {
+	if real, err := filepath.EvalSymlinks(root); err == nil {
+		root = real
+	}
 	out := map[string][]byte{}
 	for _, sub := range []string{"targets", "sources"} {
 		dir := filepath.Join(root, ".dawn", "build", sub)
